@@ -43,6 +43,10 @@ func c12(c *Ctx) {
 			}
 		}
 	}
+	// R10 (round 6): Drain hands every pending timer to a bounded task runner; a callback that panics must give its slot
+	// back, otherwise the ninth panicking delivery blocks Schedule inside drainAll for ever — the remaining timers are
+	// never delivered and the wheel goroutine is stuck (the C05.R4 discipline, run here for the runner Drain depends on)
+	c05semInsts(c, []semInst{{"C12.R10", "core/threading", "(*TaskRunner).Schedule", false, "field:limitChan", "field:waitGroup", nil, "task"}})
 	// the in-memory cache is the wheel's main client: it must move/set the key's timer with the expiry of this call
 	c16cacheAs(c, "C12.R7", true)
 }
